@@ -112,11 +112,12 @@ class Register:
             ):
                 start = alias_slice.start or 0
                 step = 1 if alias_slice.step is None else alias_slice.step
+                stop = alias_from.size if alias_slice.stop is None else alias_slice.stop
                 if step == 0:
                     raise JaqalError("Slice step cannot be zero.")
-                if alias_slice.stop > alias_from.size:
+                if stop > alias_from.size:
                     raise JaqalError("Index out of range.")
-                indices = range(start, alias_slice.stop, step)
+                indices = range(start, stop, step)
                 if len(indices) > 0 and (
                     min(indices[0], indices[-1]) < 0
                     or max(indices[0], indices[-1]) >= alias_from.size
@@ -217,6 +218,9 @@ class Register:
         if step is None:
             step = 1
         stop = self.alias_slice.stop
+        if stop is None:
+            # An open upper bound reaches to the end of the source
+            stop = alias_from.resolve_size(context)
 
         def resolve_annotated_value(value):
             while isinstance(value, AnnotatedValue):
